@@ -118,7 +118,7 @@ func c11Cells(tier string) []Cell {
 	// that are long expired at the instant it removes them.
 	for _, b := range backendKinds {
 		for _, ttl := range []string{"5m", "unlimited"} {
-			for prog := 0; prog < 4; prog++ {
+			for prog := 0; prog < 5; prog++ {
 				cells = append(cells, Cell{ID: c11Cell{Conc: true, Backend: b, TTL: ttl, DEA: "1m", First: prog}.id()})
 			}
 		}
@@ -139,7 +139,7 @@ func c11Cells(tier string) []Cell {
 
 // c11Conc: k0 is preloaded long-expired, k1 never-expiring / fresh. One thread runs a cleanup cycle, another
 // writes (program 0: fresh Write(k0); 1: Write(k0) then Write(k2); 2: two cleanup threads + Write(k0); 3: DeleteAll next
-// to a write of a long-expired entry, then a cycle).
+// to a write of a long-expired entry, then a cycle; 4: a cycle next to a write of another key of the shard).
 // After all threads finished, k0 must hold the freshly written value and k1 must still be there.
 func c11Conc(cc c11Cell, env *Env) CellResult {
 	res := CellResult{Exhaustive: true, Outcomes: map[string]int{}}
@@ -164,6 +164,16 @@ func c11Conc(cc c11Cell, env *Env) CellResult {
 			vsched.SpawnThread("writer", func() { _ = b.Write(cache.WithTTL(ctx, -2*time.Minute, false), keys[2], 300) })
 			vsched.Join()
 			b.Cleanup()
+
+			return
+		}
+
+		if cc.First == 4 {
+			// program 4: a cycle next to a write of ANOTHER key of the same shard: the long-expired k0 is nobody's
+			// business but the cycle's, and the cycle has to take it however busy the shard is
+			vsched.SpawnThread("cleanup", func() { b.Cleanup() })
+			vsched.SpawnThread("writer", func() { _ = b.Write(ctx, keys[2], 200) })
+			vsched.Join()
 
 			return
 		}
@@ -203,6 +213,22 @@ func c11Conc(cc c11Cell, env *Env) CellResult {
 		if cc.First == 3 {
 			if _, ok := have[string(keys[2])]; ok {
 				vs = append(vs, Violation{Signature: sig + " long-expired-entry-survives", Detail: "an entry stored as long expired while DeleteAll was running is still there after the next cleanup cycle"})
+			}
+
+			return vs
+		}
+
+		if cc.First == 4 {
+			if _, ok := have[string(keys[0])]; ok {
+				vs = append(vs, Violation{Signature: sig + " long-expired-entry-survives", Detail: "a cleanup cycle that ran next to a write of another key of the same shard left an entry behind that had been expired for 48h"})
+			}
+
+			if _, ok := have[string(keys[1])]; !ok {
+				vs = append(vs, Violation{Signature: sig + " live-entry-removed", Detail: "a never-expiring / fresh entry nobody touched was removed by the cycle"})
+			}
+
+			if v, ok := have[string(keys[2])]; !ok || v != 200 {
+				vs = append(vs, Violation{Signature: sig + " fresh-entry-removed", Detail: "the entry written next to the cycle is gone"})
 			}
 
 			return vs
